@@ -278,7 +278,15 @@ def _input_names(fam, cfg):
     key = (fam.name, json.dumps(cfg, sort_keys=True, default=str))
     if key in _NAMES_CACHE:
         return _NAMES_CACHE[key]
-    ctx = ConcreteCtx({})
+    class _Discover(ConcreteCtx):
+        def real(self, name):
+            self.missing.append(name)
+            return 0.37 * len(self.missing) + 0.11
+
+        def assume(self, cond):
+            return None
+
+    ctx = _Discover({})
     old = np.seterr(all="ignore")
     try:
         import warnings
